@@ -132,7 +132,8 @@ void verif_case(Ctx &c) {
 				}
 			}
 		});
-		auto choose = [&](size_t n) -> uint32_t { return t.done() ? 0 : t.next() % n; };
+		unsigned smode = t.pick(5); c.tagf("sched-mode-%u", smode);
+		auto choose = dsched::make_chooser(t, smode);
 		auto r = dsched::run(bodies, choose, 100000);
 		total_switches += r.switches;
 		VCHECK(c, "C10", r.verdict.empty(), "%s in a phase with lock-free readers", r.verdict.c_str());
@@ -162,17 +163,18 @@ void verif_enum(Enum &e) {
 	// tape: base, nkeys-2, key derivations..., nsetup, setup picks..., nphases-1, nw-1, nreaders-1, writer picks, reader picks, then schedule choices
 	struct Shape { std::vector<uint32_t> prefix; const char *name; };
 	std::vector<Shape> shapes = {
-		{{0, 0, 0, 0, 0, /*k1 = k0+1*/ 0, /*nsetup*/ 0, /*phases*/ 0, /*nw*/ 0, /*readers*/ 0, /*writer: k*/ 0, /*r: nf*/ 0, /*find*/ 0}, "insert into an empty tree (case 1 at the root) | find"},
-		{{0, 0, 0, 0, 0, 1, 0, 0, 0, 0, 0, 1, 0, 1}, "same-leaf insert (case 3) | find of the old key"},
-		{{0, 0, 0, 2, 0, 5, 1, 0, 0, 0, 0, 1, 0, 0}, "split at the root (case 2) | find of the old key"},
-		{{3, 0, 0, 1, 9, 5, 1, 0, 0, 0, 0, 1, 0, 0}, "split below the root (case 2) | find of the old key"},
-		{{0, 0, 0, 2, 0, 5, 1, 0, 0, 0, 0, 1, 0, 1}, "split at the root (case 2) | find of the new key"},
+		{{0, 0, 0, 0, 0, /*nsetup*/ 0, /*phases*/ 0, /*nw*/ 0, /*readers*/ 0, /*writer: k*/ 0, /*r: nf*/ 0, /*find*/ 0}, "insert into an empty tree (case 1 at the root) | find"},
+		{{0, 0, 0, 0, 0, 1, 0, 0, 0, 0, 1, 0, 0}, "same-leaf insert (case 3) | find of the old key"},
+		{{0, 0, 0, 1, 2, 0, 1, 0, 0, 0, 0, 1, 0, 0}, "split at the root (case 2) | find of the old key"},
+		{{0, 0, 0, 1, 2, 0, 1, 0, 0, 0, 0, 1, 0, 1}, "split at the root (case 2) | find of the new key"},
+		{{1, 0, 0, 1, 2, 0, 0, 1, 9, 0, 2, 0, 1, 0, 0, 0, 2, 0, 0}, "split below the root (case 2) | find of the old key"},
+		{{1, 0, 0, 1, 2, 0, 0, 1, 9, 0, 2, 0, 1, 0, 0, 0, 2, 0, 2}, "split below the root (case 2) | find of the new key"},
 	};
 	uint64_t cap = e.tier == "thorough" ? 80000 : 3000;
 	for(auto &sh : shapes) {
 		std::vector<uint32_t> choices; bool more = true; uint64_t n = 0;
 		while(more && n < cap) {
-			std::vector<uint32_t> tape = sh.prefix; tape.insert(tape.end(), choices.begin(), choices.end());
+			std::vector<uint32_t> tape = sh.prefix; tape.push_back(0 /* schedule mode: uniform */); tape.insert(tape.end(), choices.begin(), choices.end());
 			if(!e.run(tape)) return;
 			n++; runs++;
 			auto sizes = dsched::S().trace_sizes;
